@@ -23,6 +23,49 @@ def build_corpus(tier, seed):
     return a + b + rc, ta + tb, complete
 
 
+def numeric(d):
+    """raw automaton -> numeric form for Hopcroft.tla (states 1..n, inputs 1..m by input id)"""
+    syms, tr = {}, []
+    for t in d["tr"]:
+        a = syms.setdefault(t["i"], len(syms) + 1)
+        tr.append([t["f"], a, t["t"]])
+    states = sorted({d["start"]} | {x[0] for x in tr} | {x[2] for x in tr})
+    if states != list(range(1, len(states) + 1)):
+        return None
+    return {"n": len(states), "m": max(len(syms), 1), "tr": sorted(tr), "acc": sorted(d["acc"])}
+
+
+def mechanism(ok, tier):
+    seen, cases = set(), []
+    for r in ok:
+        for d in [r["obs"]["raw"]] + r["obs"]["rawsubs"]:
+            x = numeric(d)
+            if x is None or x["n"] > (5 if tier == "quick" else 6) or x["m"] > 4:
+                continue
+            key = json.dumps(x, sort_keys=True)
+            if key in seen:
+                continue
+            seen.add(key)
+            x["id"] = len(cases) + 1
+            x["usage"] = r["usage"]
+            cases.append(x)
+    cases = cases[:150] if tier == "quick" else cases[:1500]
+    if not cases:
+        return {"automata": 0, "states": 0, "transitions": 0}
+    res = core.run_tlc_sharded("Hopcroft.tla", "Hopcroft.cfg", [{k: v for k, v in c.items() if k != "usage"} for c in cases], shards=8, workers=2,
+                               prefix="hopcroft", timeout=3000)
+    byid = {c["id"]: c for c in cases}
+    nonmin = sorted({x[0] for x in res.tagged("NONMINIMAL")})
+    unsound = sorted({x[0] for x in res.tagged("UNSOUND")})
+    done = {x[0] for x in res.tagged("DONE")}
+    for i in (nonmin + unsound)[:5]:
+        core.log("MODEL-PREDICTION (design level, not a verdict): some schedule of the modelled algorithm ends %s on the raw automaton of %s" % (
+            "non-minimal" if i in nonmin else "with a Nerode class split", byid[i]["usage"].strip()))
+    return {"automata": len(cases), "terminated": len(done), "states": res.distinct, "transitions": res.generated,
+            "schedules_ending_nonminimal": len(nonmin), "schedules_splitting_a_nerode_class": len(unsound),
+            "note": "every work-list / input / block order of do_minimize as modelled in Hopcroft.tla, on the distinct raw automata (<= %d states, <= 4 inputs) of this corpus" % (5 if tier == "quick" else 6)}
+
+
 def run(tier):
     t0 = time.time()
     core.build(need_bin=False)
@@ -54,6 +97,8 @@ def run(tier):
                 r["usage"].strip().replace("\n", " "), r["shell"], "main" if d["which"] == 0 else "within-word #%d" % d["which"], prob,
                 d["nstates"], d["rawclasses"], d["merged"], d["unreachable"], d["dead"]),
                 {"usage": r["usage"], "shell": r["shell"], "which": d["which"], "problems": d["problems"]})
+    # (c) mechanism model: Hopcroft.tla over every distinct raw automaton, all schedules (design-level; predictions only)
+    mech = mechanism(ok, tier)
     nauto = sum(1 + len(r["obs"]["minsubs"]) for r in ok)
     if len(validated_a) < len(ok) or len(validated_b) < nauto:
         raise core.ToolError("vacuity: validated %d/%d (language) %d/%d (structure)" % (len(validated_a), len(ok), len(validated_b), nauto))
@@ -61,7 +106,8 @@ def run(tier):
               len({t["f"] for t in r["obs"]["min"]["tr"]} | {t["t"] for t in r["obs"]["min"]["tr"]})]
     samples = [{"usage": r["usage"], "raw_transitions": len(r["obs"]["raw"]["tr"]), "min_transitions": len(r["obs"]["min"]["tr"])}
                for r in shrunk[:: max(1, len(shrunk) // 5)][:5]]
-    cov = {"states": res_a.distinct + res_b.distinct, "transitions": res_a.generated + res_b.generated,
+    cov = {"states": res_a.distinct + res_b.distinct + mech["states"], "transitions": res_a.generated + res_b.generated + mech["transitions"],
+           "mechanism_model": mech,
            "traces_validated_against_impl": len(validated_a) + len(validated_b), "samples": samples or [{"usage": ok[0]["usage"]}],
            "programs": len(ok), "automata_checked_for_minimality": nauto, "exhaustive": complete, "exhaustive_trees_total": total,
            "evaluations": len(validated_a) + len(validated_b),
